@@ -426,6 +426,12 @@ func runInBubble(tp *core.Tape, e *core.Env, sc *Scenario, replicaSel []int, out
 		rt := &cyc.ReplicaTrace{ID: m.id, ListErr: m.spec.ListErr, Scale: m.scale}
 		for i, h := range m.hosts {
 			st := cyc.BuildShard(h, m.spec.Shards[i].Ready, byHost[h], CoordHash)
+			sp := m.spec.Shards[i]
+			st.Truth = map[uint64]string{}
+			for hh, c := range sp.Copies {
+				st.Truth[hh] = c.State
+			}
+			st.StatusWouldAnswer = sp.Ready && sp.StatusFail == ""
 			for _, c := range st.Calls {
 				if c.Seq > rt.LastSeq {
 					rt.LastSeq = c.Seq
